@@ -1,5 +1,5 @@
 /*@unit
-properties = ["C15"]
+properties = ["C15", "C01", "C02"]
 mode = "dfcc"
 enforce = "Row_freespace"
 timeout = 600
